@@ -87,7 +87,10 @@ def run(repo, rep, tier):
             rep.evals()
             names = {lvl: {act: {cat: [e.get('name') if isinstance(e, dict) else e for e in lst] for cat, lst in cats.items()} for act, cats in acts.items()} for lvl, acts in got.items()}
             want = R.expected_levels(rec, sup)
-            if names != want:
+            def _unordered(d):
+                # which names are recommended at which level is the property; the order inside one list is not (C15 decides output determinism)
+                return {lvl: {act: {cat: sorted(lst, key=str) for cat, lst in cats.items()} for act, cats in acts.items()} for lvl, acts in d.items()}
+            if _unordered(names) != _unordered(want):
                 badl.append('peer offering %s, %s, suppression list %s: %r, expected %r' % (odesc, '%s %s' % sw, sup, names, want))
     rep.check('faults', 'critical <=> the algorithm has a failure, warning <=> warnings only, additions informational; suppressed names are left out of every action', not badl, gar,
               'severity / suppression of recommendations wrong -- %s' % (badl[0] if badl else ''), stmt='recommendation levels')
